@@ -77,6 +77,14 @@ inline void verif_fence(std::memory_order o) noexcept {
 using namespace cocls;
 
 static int ITER = 200;
+static volatile long g_sink = 0;
+#define SINK(x) (g_sink = g_sink + (long)(x))
+struct start_gate {
+    std::atomic<int> n{0};
+    int want;
+    explicit start_gate(int w) : want(w) {}
+    void arrive() { n.fetch_add(1); while (n.load() < want) std::this_thread::yield(); }
+};
 
 struct payload {
     long a = 0, b = 0, c = 0;
@@ -157,21 +165,35 @@ static async<void> mx_coro(mutex &mx, int rounds, std::atomic<int> &done) {
     }
     done.fetch_add(1);
 }
+static async<void> mx_coro_g(mutex &mx, int rounds, std::atomic<int> &done, start_gate &g) {
+    g.arrive();
+    for (int i = 0; i < rounds; i++) {
+        auto own = co_await mx.lock();
+        mx_counter++;
+        if (i % 3 == 0) std::this_thread::yield();
+        own.release();
+    }
+    done.fetch_add(1);
+}
 static void sc_mutex() {
     for (int i = 0; i < ITER / 4 + 1; i++) {
         mutex mx;
         std::atomic<int> done{0};
-        std::thread a([&] { mx_coro(mx, 20, done).detach(); });
-        std::thread b([&] { mx_coro(mx, 20, done).detach(); });
+        start_gate g(4);
+        std::thread a([&] { mx_coro_g(mx, 30, done, g).detach(); });
+        std::thread b([&] { mx_coro_g(mx, 30, done, g).detach(); });
         std::thread c([&] {
-            for (int k = 0; k < 20; k++) {
+            g.arrive();
+            for (int k = 0; k < 30; k++) {
                 mutex::ownership own = mx.lock().wait();
                 mx_counter++;
+                if (k % 3 == 1) std::this_thread::yield();
             }
             done.fetch_add(1);
         });
         std::thread d([&] {
-            for (int k = 0; k < 20; k++) {
+            g.arrive();
+            for (int k = 0; k < 30; k++) {
                 auto own = mx.try_lock();
                 if (own) mx_counter++;
             }
@@ -188,9 +210,9 @@ static void sc_queue() {
         queue<payload> q;
         limited_queue<int> lq(2);
         std::thread p1([&] { for (int k = 0; k < 50; k++) q.push(payload(k)); });
-        std::thread p2([&] { for (int k = 0; k < 50; k++) { q.push(payload(k)); (void)q.size(); } });
+        std::thread p2([&] { for (int k = 0; k < 50; k++) { q.push(payload(k)); SINK(q.size()); } });
         std::thread c1([&] { for (int k = 0; k < 50; k++) { volatile long s = q.pop().wait().sum(); (void)s; } });
-        std::thread c2([&] { for (int k = 0; k < 50; k++) { volatile long s = q.pop().wait().sum(); (void)s; (void)q.empty(); } });
+        std::thread c2([&] { for (int k = 0; k < 50; k++) { volatile long s = q.pop().wait().sum(); (void)s; SINK(q.empty()); } });
         std::thread p3([&] { for (int k = 0; k < 50; k++) lq.push(k).wait(); });
         std::thread c3([&] { for (int k = 0; k < 50; k++) { volatile int s = lq.pop().wait(); (void)s; } });
         p1.join(); p2.join(); c1.join(); c2.join(); p3.join(); c3.join();
@@ -217,7 +239,7 @@ static void sc_pool() {
             for (int k = 0; k < 6; k++) pool_coro(pool, cnt).detach();
             auto f = pool.run([&] { return 42; });
             pool.run_detached([&] { cnt.fetch_add(1); });
-            std::thread st([&] { if (i % 2) pool.stop(); else (void)pool.is_stopped(); });
+            std::thread st([&] { if (i % 2) pool.stop(); else SINK(pool.is_stopped()); });
             try { volatile int v = f.wait(); (void)v; } catch (...) {}
             st.join();
         }
@@ -246,7 +268,7 @@ static void sc_publisher() {
             subscriber<int> sub(pub);
             go.store(true);
             long sum = 0;
-            while (sub.next()) { sum += sub.value(); (void)sub.position(); }
+            while (sub.next()) { sum += sub.value(); SINK(sub.position()); }
         });
         std::thread s2([&] {
             while (!go.load()) std::this_thread::yield();
@@ -254,7 +276,7 @@ static void sc_publisher() {
             subscriber<int> cp(sub);
             long sum = 0;
             while (sub.next()) sum += sub.value();
-            (void)cp.position();
+            SINK(cp.position());
         });
         while (!go.load()) std::this_thread::yield();
         for (int k = 0; k < 40; k++) pub.publish(k);
@@ -327,7 +349,7 @@ static void sc_shared() {
         promise<int> p;
         shared_future<int> sf([&](promise<int> pp) { p = std::move(pp); });
         std::thread a([sf]() mutable { try { volatile int v = sf.wait(); (void)v; } catch (...) {} });
-        std::thread b([sf]() mutable { shared_future<int> c = sf; (void)c.ready(); });
+        std::thread b([sf]() mutable { shared_future<int> c = sf; SINK(c.ready()); });
         std::thread r([&] { p(7); });
         a.join(); b.join(); r.join();
     }
